@@ -248,7 +248,7 @@ def run(ctx):
     if ctx.thorough:
         scs = fam
     else:
-        want = ["e3r2nest/rename/old", "e3r2nest/undo/old", "e2r1/redo/old"]
+        want = ["e3r2nest/rename/old", "e3r2nest/undo/old", "e2r1/redo/old", "e2r1hard/apply/fresh"]
         scs = [s for s in fam if s["name"] in want]
     with Pool(16) as pool:
         if os.path.isdir(CORPUS):
